@@ -47,3 +47,8 @@ STRUCTURAL = (globals().get('STRUCTURAL') or []) + [_templates]
 VALIDATION = [validate_bs4, validate_ir]
 
 FUNCTIONS = FUNCTIONS + [q for q in CACHE if q not in FUNCTIONS]
+
+FUNCTIONS = FUNCTIONS + [q for q in [q for q in PARSE_SMALL if q.split(".")[-1].split("@")[0] in ("parse_class_id", "parse_tag_pattern", "parse_pseudo_class", "parse_pseudo_open")] if q not in FUNCTIONS]
+STRUCTURAL = (globals().get('STRUCTURAL') or []) + [dispatch_structural]
+TRUSTED = list(TRUSTED) + [A_TOK]
+ASSUMPTIONS = TRUSTED
